@@ -30,6 +30,36 @@ var repoDir = "/repo"
 
 var replayTemplates = []*replayTemplate{
 	{
+		name: "xrep_send_peer_gone.go.tmpl",
+		match: func(o *Obligation) bool {
+			return o.Kind == "post" && o.Func == "(*protocol/xrep.socket).SendMsg" && strings.Contains(o.Note, "result == protocol.ErrClosed ==> s.closed")
+		},
+		run: func(g *Gen, o *Obligation, model map[string]string) (bool, string) {
+			// fixed history: WriteQLen 0, one reply in flight, a second one blocked, the peer's pipe closes
+			return runReplay("protocol/xrep", "xrep_send_peer_gone.go.tmpl", map[string]string{}, "TestZZReplayXRepSendPeerGone")
+		},
+	},
+	{
+		name: "tcp_dialer_keepalive_race.go.tmpl",
+		match: func(o *Obligation) bool {
+			return (o.Kind == "guard.read" || o.Kind == "guard.write") && strings.HasPrefix(o.Func, "(*transport/tcp.dialer).") && strings.HasSuffix(o.Name, ":dialer.d")
+		},
+		run: func(g *Gen, o *Obligation, model map[string]string) (bool, string) {
+			// fixed schedule, under the race detector: Dial to a dead port in a loop while SetOption(KeepAliveTime) runs
+			return runReplayArgs("transport/tcp", "tcp_dialer_keepalive_race.go.tmpl", map[string]string{}, "TestZZReplayDialerKeepAliveRace", "-race")
+		},
+	},
+	{
+		name: "tls_state_before_handshake.go.tmpl",
+		match: func(o *Obligation) bool {
+			return o.Kind == "post" && o.Func == "(*transport.conn).handshake" && strings.Contains(o.Note, "ConnectionState")
+		},
+		run: func(g *Gen, o *Obligation, model map[string]string) (bool, string) {
+			// fixed history: tls+tcp listener and dialer connect, the listener-side pipe's TLS state is read
+			return runReplay("transport/tlstcp", "tls_state_before_handshake.go.tmpl", map[string]string{}, "TestZZReplayTLSStateAfterHandshake")
+		},
+	},
+	{
 		name: "xstar_resize_pending_recv.go.tmpl",
 		match: func(o *Obligation) bool {
 			return (o.Kind == "site" || o.Kind == "contract") && o.Func == "(*protocol/xstar.socket).RecvMsg" && strings.Contains(o.Note, "sizeq")
@@ -187,6 +217,12 @@ func findReplay(o *Obligation) *replayTemplate {
 // runReplay instantiates a template and runs it in-package through an overlay.
 // Returns (test failed = violation reproduced, output).
 func runReplay(pkgDir, tmpl string, subst map[string]string, test string) (bool, string) {
+	return runReplayArgs(pkgDir, tmpl, subst, test)
+}
+
+// runReplayArgs: extra `go test` flags (e.g. -race for guard violations: the run fails when the race
+// detector reports a race with both stacks inside the library)
+func runReplayArgs(pkgDir, tmpl string, subst map[string]string, test string, extra ...string) (bool, string) {
 	src, err := os.ReadFile(filepath.Join(replayDir, tmpl))
 	if err != nil {
 		return false, "template missing: " + err.Error()
@@ -210,7 +246,10 @@ func runReplay(pkgDir, tmpl string, subst map[string]string, test string) (bool,
 	ob, _ := json.Marshal(ov)
 	of := filepath.Join(work, "overlay.json")
 	os.WriteFile(of, ob, 0o644)
-	cmd := exec.Command("go", "test", "-overlay", of, "-vet=off", "-count=1", "-v", "-timeout", "60s", "-run", "^"+test+"$", "./"+pkgDir)
+	args := []string{"test", "-overlay", of, "-vet=off", "-count=1", "-v", "-timeout", "60s"}
+	args = append(args, extra...)
+	args = append(args, "-run", "^"+test+"$", "./"+pkgDir)
+	cmd := exec.Command("go", args...)
 	cmd.Dir = repoDir
 	cmd.Env = append(os.Environ(), "GOFLAGS=-mod=mod", "GOPROXY=off", "GOSUMDB=off", "GOTOOLCHAIN=local")
 	done := make(chan struct{})
@@ -226,6 +265,6 @@ func runReplay(pkgDir, tmpl string, subst map[string]string, test string) (bool,
 	if len(s) > 4000 {
 		s = s[:4000]
 	}
-	failed := err != nil && strings.Contains(s, "--- FAIL")
+	failed := err != nil && (strings.Contains(s, "--- FAIL") || strings.Contains(s, "WARNING: DATA RACE"))
 	return failed, s
 }
